@@ -61,8 +61,8 @@ pub fn structure(name: &str, wasm: &[u8], obs: &Observed, out: &mut Vec<Json>) {
 pub fn customs(name: &str, wasm: &[u8], out: &mut Vec<Json>) {
     let a = match amod::decode(wasm) { Ok(a) => a, Err(_) => return };
     let want = raw_customs(&a);
-    for (label, gc, twice) in [("emit", false, false), ("gc+emit", true, false), ("second emit on the same Module", false, true)] {
-        let r = catch(|| { let mut m = Module::from_buffer(wasm).ok()?; if gc { passes::gc::run(&mut m); } let first = m.emit_wasm(); Some(if twice { m.emit_wasm() } else { first }) });
+    for (label, gc, twice, pct) in [("emit", false, false, false), ("gc+emit", true, false, false), ("second emit on the same Module", false, true, false), ("emit with preserve_code_transform", false, false, true), ("gc+emit with preserve_code_transform", true, false, true), ("second emit on the same Module with preserve_code_transform", false, true, true)] {
+        let r = catch(|| { let mut c = ModuleConfig::new(); c.preserve_code_transform(pct); let mut m = c.parse(wasm).ok()?; if gc { passes::gc::run(&mut m); } let first = m.emit_wasm(); Some(if twice { m.emit_wasm() } else { first }) });
         if let Some(Some(o)) = r { if let Ok(b) = amod::decode(&o) { let got = raw_customs(&b);
             if got != want { out.push(v(if twice { "customs-lost-on-second-emit" } else { "customs-not-preserved" }, if twice { "C12 C08" } else { "C12" }, format!("{}: custom sections after {}: {} of {} survive unchanged and in order", name, label, got.iter().zip(&want).filter(|(x, y)| x == y).count(), want.len()), wasm,
                 format!("{:?}", got.iter().map(|c| (&c.0, c.1.len())).collect::<Vec<_>>()), format!("{:?}", want.iter().map(|c| (&c.0, c.1.len())).collect::<Vec<_>>()))); } } }
@@ -71,9 +71,12 @@ pub fn customs(name: &str, wasm: &[u8], out: &mut Vec<Json>) {
 
 /// C08: repeated emits on one Module are byte-identical; re-parsing the output and emitting again reproduces it.
 pub fn determinism(name: &str, wasm: &[u8], out: &mut Vec<Json>) {
+    for pct in [false, true] {
+        let r = catch(|| { let mut cfg = ModuleConfig::new(); cfg.preserve_code_transform(pct); let mut m = cfg.parse(wasm).ok()?; let a = m.emit_wasm(); let b = m.emit_wasm(); let c = m.emit_wasm(); Some((a, b, c)) });
+        if let Some(Some((a, b, c))) = r { if a != b || b != c { out.push(v("repeated-emit-differs", "C08", format!("{}: emitting the same in-memory module again gives different bytes (lengths {} {} {}; preserve_code_transform={})", name, a.len(), b.len(), c.len(), pct), wasm, crate::c03::hex(&b), crate::c03::hex(&a))); } }
+    }
     let r = catch(|| { let mut m = Module::from_buffer(wasm).ok()?; let a = m.emit_wasm(); let b = m.emit_wasm(); let c = m.emit_wasm(); Some((a, b, c)) });
-    if let Some(Some((a, b, c))) = r {
-        if a != b || b != c { out.push(v("repeated-emit-differs", "C08", format!("{}: emitting the same in-memory module again gives different bytes (lengths {} {} {})", name, a.len(), b.len(), c.len()), wasm, crate::c03::hex(&b), crate::c03::hex(&a))); }
+    if let Some(Some((a, _b, _c))) = r {
         let r2 = catch(|| { let mut m = Module::from_buffer(&a).ok()?; Some(m.emit_wasm()) });
         match r2 { Some(Some(a2)) => if a2 != a { let da = amod::decode(&a).ok(); let db = amod::decode(&a2).ok();
                 out.push(v("not-a-fixpoint", "C08", format!("{}: re-parsing walrus's own output and emitting again does not reproduce it ({} vs {} bytes; sections {:?} vs {:?})", name, a.len(), a2.len(), da.map(|x| x.sections), db.map(|x| x.sections)), wasm, crate::c03::hex(&a2), crate::c03::hex(&a))); },
